@@ -1,5 +1,6 @@
 import Got.Model.Ants
 import Got.Lemmas.AntsHonour
+import Got.Lemmas.AntsOptions
 /-
 C08 — ants: at most `size` handlers run at once and timeouts bound the wait; busy only if the queue was full.
 Model: Got.Model.Ants. `State.running` is a ghost counter incremented when a handler is entered (wStart) and
@@ -93,6 +94,22 @@ theorem C08_bound_honour (c : Cfg) (hc : c.old = false) (hN : 1 ≤ c.N) (acts :
     ((s.task k).pc = .done → (s.task k).doneAt ≤ (s.task k).pickAt + (s.task k).R * (s.task k).T) ∧
     ((s.task k).pc.dispatching = true → s.now ≤ (s.task k).pickAt + (s.task k).R * (s.task k).T) :=
   C08_bound_partial c hc k acts s (runH_runMP hc hN k (allInv_init c) h)
+
+/-- the option functions are applied left to right (createTaskOptions = a fold); a non-positive WithTimeout / WithRetry
+    anywhere in the list is as if it were absent, in particular it never resets an earlier positive value; the folded
+    record always has a positive timeout and retry count, which are the T and R of the bound above; the pool size (fold of
+    the pool options) is ≥ 1, the hypothesis of C08_bound_honour. -/
+theorem C08_options_fold (l1 l2 : List TOpt) (x : TOpt)
+    (hx : (∃ d, x = .timeout d ∧ d ≤ 0) ∨ (∃ n, x = .retry n ∧ n ≤ 0)) (pl : List POpt) :
+    applyOptions (l1 ++ x :: l2) = applyOptions (l1 ++ l2) ∧
+    effT (applyOptions (l1 ++ l2)) = (applyOptions (l1 ++ l2)).timeout.toNat ∧ 0 < (applyOptions (l1 ++ l2)).timeout ∧
+    effR (applyOptions (l1 ++ l2)) = (applyOptions (l1 ++ l2)).retry.toNat ∧ 0 < (applyOptions (l1 ++ l2)).retry ∧
+    1 ≤ (applyPoolOptions pl).size :=
+  ⟨applyOptions_drop_nonpos l1 l2 x hx, effT_applyOptions _, (applyOptions_pos _).1, effR_applyOptions _,
+    (applyOptions_pos _).2, applyPoolOptions_size_pos pl⟩
+
+example : (applyOptions [.timeout 1000, .retry 2, .onError true, .timeout 0, .retry 0]).timeout = 1000 ∧
+    (applyOptions [.timeout 1000, .retry 2, .onError true, .timeout 0, .retry 0]).retry = 2 := by decide
 
 /-- executions under maximal progress are executions of the model -/
 theorem C08_runMP_is_run (c : Cfg) (k : Nat) (acts : List Act) (s : State) (h : runMP c k init acts = some s) :
